@@ -178,6 +178,10 @@ pub struct FontEntry {
     pub has_gsub_or_gpos: bool,
     pub variable: bool,
     pub probes: Vec<Probe>,
+    /// built per case from a C04 program and/or a C05 tape
+    pub generated: bool,
+    /// variation tuples at the condition boundaries of the generated FeatureVariations
+    pub tuples: Vec<Vec<i16>>,
 }
 
 pub struct FontSet {
@@ -329,6 +333,8 @@ fn make_entry(group: &'static str, name: String, script: [u8; 4], synthetic: boo
         has_gsub_or_gpos: has,
         variable: dir.iter().any(|e| &e.tag == b"fvar"),
         probes,
+        generated: false,
+        tuples: Vec::new(),
     })
 }
 
@@ -1263,6 +1269,198 @@ fn synthetic_fonts() -> Vec<(&'static str, [u8; 4], Vec<u8>)> {
 }
 
 // ------------------------------------------------------------------------------------------
+// generated layout fonts: GSUB (+GDEF, FeatureVariations) from a C04 case, GPOS / kern (+GDEF)
+// from a C05 tape, over a shared glyph set (U+E000 + glyph id, plus the characters of a complex
+// script when the programs are registered under that script tag)
+// ------------------------------------------------------------------------------------------
+
+#[derive(Clone, Debug)]
+pub struct Generated {
+    pub gsub: Option<Box<crate::props::c04::Case>>,
+    pub tape: Option<Vec<u32>>,
+    /// 0..=2: latn / DFLT only; otherwise GEN_SCRIPTS[(script - 3) % len] is registered too and
+    /// that script's characters are mapped onto the glyphs
+    pub script: u8,
+    /// rename the features to the ones the complex shaper asks for
+    pub retag: bool,
+    /// when both programs carry a GDEF: take the GPOS program's
+    pub gdef_from_gpos: bool,
+}
+
+const GEN_SCRIPTS: [[u8; 4]; 9] = [*b"arab", *b"deva", *b"khmr", *b"mym2", *b"thai", *b"syrc", *b"beng", *b"taml", *b"mlym"];
+
+fn shaper_feature_tags(script: &[u8; 4]) -> &'static [&'static [u8; 4]] {
+    match script {
+        b"arab" | b"syrc" => &[b"isol", b"fina", b"medi", b"init", b"rlig", b"calt", b"liga", b"ccmp", b"locl", b"fin2", b"med2", b"mset"],
+        b"khmr" => &[b"pref", b"blwf", b"abvf", b"pstf", b"cfar", b"pres", b"abvs", b"blws", b"psts", b"clig", b"locl", b"ccmp"],
+        b"mym2" => &[b"rphf", b"pref", b"blwf", b"pstf", b"pres", b"abvs", b"blws", b"psts", b"locl", b"ccmp", b"liga", b"rlig"],
+        b"thai" => &[b"ccmp", b"locl", b"liga", b"rlig", b"calt", b"clig"],
+        _ => &[b"nukt", b"akhn", b"rphf", b"pref", b"blwf", b"half", b"pstf", b"cjct", b"pres", b"abvs", b"blws", b"psts", b"haln", b"init", b"locl", b"rkrf", b"vatu"],
+    }
+}
+
+fn build_generated(g: &Generated) -> Option<FontEntry> {
+    use crate::fontgen::{otl, otl_gpos};
+    use crate::props::{c04, c05};
+    let p4 = g.gsub.as_ref().map(|c| c04::resolve(c));
+    let p5 = g.tape.as_ref().map(|t| c05::build_program(t));
+    let n = p4.as_ref().map(|p| p.n).unwrap_or(0).max(p5.as_ref().map(|p| p.nglyphs.saturating_sub(1)).unwrap_or(0)).clamp(4, 200);
+    let script: [u8; 4] = if g.script < 3 { *b"latn" } else { GEN_SCRIPTS[(g.script as usize - 3) % GEN_SCRIPTS.len()] };
+    let complex = &script != b"latn";
+    let mut f = BasicFont::with_glyphs(n + 1);
+    for gid in 1..=n {
+        f.cmap.insert(0xE000 + gid as u32, gid);
+    }
+    if let Some(p) = &p5 {
+        for gid in 0..=n as usize {
+            if let (Some(a), Some(m)) = (p.advances.get(gid), f.metrics.get_mut(gid)) {
+                *m = (*a, 0);
+            }
+        }
+    }
+    if complex {
+        let a = alphabet_for(&script);
+        let nn = n as u32;
+        for c in a.halant.iter().chain(a.nukta.iter()).chain(a.ra.iter()).chain(a.prebase.iter()).chain(a.special.iter()) {
+            f.cmap.entry(*c).or_insert(1 + (*c % nn) as u16);
+        }
+        for (lo, hi) in a.cons.iter().chain(a.matra.iter()).chain(a.marks.iter()) {
+            for c in *lo..=(*hi).min(*lo + 96) {
+                f.cmap.entry(c).or_insert(1 + (c % nn) as u16);
+            }
+        }
+        f.cmap.insert(0x25CC, 1 + (0x25CC % nn) as u16);
+        f.cmap.insert(0x200D, 1 + (0x200D % nn) as u16);
+        f.cmap.insert(0x200C, 1 + (0x200C % nn) as u16);
+    }
+    let mut tuples: Vec<Vec<i16>> = Vec::new();
+    let mut strings: Vec<Vec<u16>> = Vec::new();
+    let mut have_gdef = false;
+    if let Some(p) = &p4 {
+        let mut gsub = p.gsub.clone();
+        if complex {
+            if g.retag {
+                let new = shaper_feature_tags(&script);
+                let mut old: Vec<[u8; 4]> = gsub.features.iter().map(|x| x.tag).collect();
+                old.sort();
+                old.dedup();
+                for ft in gsub.features.iter_mut() {
+                    let i = old.iter().position(|t| *t == ft.tag).unwrap_or(0);
+                    ft.tag = *new[(i + g.script as usize) % new.len()];
+                }
+            }
+            if let Some(first) = gsub.scripts.first().cloned() {
+                if !gsub.scripts.iter().any(|s| s.tag == script) {
+                    let mut s2 = first;
+                    s2.tag = script;
+                    gsub.scripts.push(s2);
+                    gsub.scripts.sort_by_key(|s| s.tag);
+                }
+            }
+        }
+        if let Ok(bytes) = otl::gsub_table(&gsub) {
+            f.extra.push((*b"GSUB", bytes));
+            let axes = gsub.feature_variations.as_ref().map(|v| v.axis_count as usize).unwrap_or(0);
+            if axes > 0 {
+                let models: Vec<crate::fontgen::var::AxisModel> = (0..axes)
+                    .map(|i| crate::fontgen::var::AxisModel { tag: [b'a', b'x', b'0', b'0' + (i % 10) as u8], min: -65536, default: 0, max: 65536, flags: 0, name_id: 256 + i as u16 })
+                    .collect();
+                f.extra.push((*b"fvar", crate::fontgen::var::fvar_table(&models, &[], 0)));
+                for r in &p.requests {
+                    if let Some(t) = &r.tuple {
+                        tuples.push(t.clone());
+                    }
+                }
+            }
+        }
+        strings.extend(p.strings.iter().cloned());
+        if let (Some(gd), false) = (&p.gdef, g.gdef_from_gpos && p5.as_ref().map(|q| q.gdef.is_some()).unwrap_or(false)) {
+            f.extra.push((*b"GDEF", otl::gdef_table(gd)));
+            have_gdef = true;
+        }
+    }
+    if let Some(p) = &p5 {
+        if let Some(gp) = &p.gpos {
+            let mut gp = gp.clone();
+            if complex {
+                if let Some(first) = gp.scripts.first().cloned() {
+                    if !gp.scripts.iter().any(|s| s.tag == script) {
+                        let mut s2 = first;
+                        s2.tag = script;
+                        gp.scripts.push(s2);
+                    }
+                }
+            }
+            if let Ok(bytes) = otl_gpos::encode_gpos(&gp) {
+                f.extra.push((*b"GPOS", bytes));
+            }
+        }
+        if let Some(k) = &p.kern {
+            f.extra.push((*b"kern", otl_gpos::encode_kern(k).0));
+        }
+        if !have_gdef {
+            if let Some(gd) = &p.gdef {
+                if let Ok(bytes) = otl_gpos::encode_gdef(gd) {
+                    f.extra.push((*b"GDEF", bytes));
+                }
+            }
+        }
+        for s in &p.strings {
+            strings.push(s.iter().map(|x| x.gid).collect());
+        }
+    }
+    let name = format!(
+        "generated/{}{}:{}",
+        if p4.is_some() { "c04" } else { "" },
+        if p5.is_some() { "+c05" } else { "" },
+        String::from_utf8_lossy(&script)
+    );
+    let mut e = make_entry("generated", name, script, true, f.build())?;
+    e.generated = true;
+    e.tuples = tuples;
+    // the generators' own witness strings, spelled with the private-use characters
+    for s in strings.iter().filter(|s| !s.is_empty()).take(12) {
+        let text: String = s.iter().filter_map(|gid| char::from_u32(0xE000 + *gid as u32)).take(32).collect();
+        e.probes.push(Probe { table: 0xFF, lookup: 0xFFFF, ty: 0, text, feature: None });
+    }
+    Some(e)
+}
+
+fn gen_strategy() -> impl Strategy<Value = Generated> {
+    let tape = || proptest::collection::vec(any::<u32>(), 900..=900);
+    let programs = prop_oneof![
+        35 => crate::props::c04::case_strategy().prop_map(|c| (Some(Box::new(c)), None)),
+        25 => tape().prop_map(|t| (None, Some(t))),
+        40 => (crate::props::c04::case_strategy(), tape()).prop_map(|(c, t)| (Some(Box::new(c)), Some(t))),
+    ];
+    (programs, 0u8..12, any::<bool>(), any::<bool>()).prop_map(|((gsub, tape), script, retag, gdef_from_gpos)| Generated { gsub, tape, script, retag, gdef_from_gpos })
+}
+
+fn generated_strategy(max_toks: usize, max_len: u16) -> impl Strategy<Value = Case> {
+    (case_strategy(max_toks, max_len), gen_strategy(), any::<u32>(), any::<u8>()).prop_map(|(mut c, g, sel, m)| {
+        // script tag: the tags the programs are registered under, mostly
+        c.script = match (g.script < 3, sel % 10) {
+            (true, 0..=4) => ScriptSel::Tag(*b"latn"),
+            (true, 5..=7) => ScriptSel::Tag(*b"DFLT"),
+            (false, 0..=6) => ScriptSel::Matching,
+            (false, 7) => ScriptSel::Tag(*b"latn"),
+            _ => c.script,
+        };
+        c.text_follows_script = false;
+        // witness / reaching strings more often than for catalogue fonts
+        if c.probe.is_none() && sel & 0x300 != 0 {
+            c.probe = Some((sel.rotate_left(9), if m & 0x60 == 0 { m | 0x10 } else { m & !0x10 }));
+        }
+        // structural faults are the interesting ones on small generated tables
+        if c.faults.len() > 2 {
+            c.faults.truncate(2);
+        }
+        c.generated = Some(g);
+        c
+    })
+}
+
+// ------------------------------------------------------------------------------------------
 // the case model
 // ------------------------------------------------------------------------------------------
 
@@ -1326,8 +1524,11 @@ pub enum FeatSel {
     Custom(Vec<(u32, u8, Option<u8>)>),
 }
 
-#[derive(Clone, Debug, PartialEq)]
+#[derive(Clone, Debug)]
 pub struct Case {
+    /// font class `generated-layout`: the font is built from these programs instead of being
+    /// picked from the catalogue
+    pub generated: Option<Generated>,
     /// exact (group index, font index) instead of the `group` / `font` selectors (sweep)
     pub direct: Option<(u16, u16)>,
     pub group: u32,
@@ -1460,6 +1661,7 @@ fn case_strategy(max_toks: usize, max_len: u16) -> impl Strategy<Value = Case> {
         (text, probe),
     )
         .prop_map(move |((group, font, faults, script, tfs, lang), (feats, tuple, kerning, pres, rtl, vertical), (text, probe))| Case {
+            generated: None,
             direct: None,
             group,
             font,
@@ -1555,6 +1757,7 @@ pub fn make_focused(r: FocusRaw, max_len: u16) -> Case {
         _ => Vec::new(),
     };
     Case {
+        generated: None,
         direct,
         group: r.font,
         font: r.font,
@@ -1619,9 +1822,13 @@ fn focused_strategy(max_toks: usize, max_len: u16) -> impl Strategy<Value = Case
 }
 
 fn full_strategy(max_toks: usize, max_len: u16) -> impl Strategy<Value = Case> {
+    // VERIF_C02_ONLY=general|focused|generated restricts the mix (profiling / triage aid)
+    let only = std::env::var("VERIF_C02_ONLY").unwrap_or_default();
+    let w = |name: &str, w: u32| if only.is_empty() || only == name { w } else { 0 };
     prop_oneof![
-        78 => case_strategy(max_toks, max_len),
-        22 => focused_strategy(max_toks, max_len),
+        w("general", 65) => case_strategy(max_toks, max_len),
+        w("focused", 20) => focused_strategy(max_toks, max_len),
+        w("generated", 15) => generated_strategy(max_toks, max_len),
     ]
 }
 
@@ -1701,12 +1908,63 @@ pub fn case_from_bytes(data: &[u8]) -> arbitrary::Result<Case> {
         }
         return Ok(make_focused(FocusRaw { kind, font, script, featmode, bits, alt, lang, flags, faults, tuple, head, tail }, 200));
     }
+    if mode < 104 {
+        // generated-layout font: 32 bytes seed a C04 case (through its proptest strategy), up to
+        // 900 little-endian words are the C05 tape, the rest decodes like a general case
+        let which = mode % 3; // 0 GSUB only, 1 GPOS only, 2 both
+        let script: u8 = u.int_in_range(0u8..=11)?;
+        let gflags: u8 = u.arbitrary()?;
+        let gsub = if which != 1 {
+            let mut seed = [0u8; 32];
+            for b in seed.iter_mut() {
+                *b = u.arbitrary()?;
+            }
+            c04_case_from_seed(seed).map(Box::new)
+        } else {
+            None
+        };
+        let tape = if which != 0 {
+            let words = u.int_in_range(0usize..=900)?;
+            let mut bytes = Vec::with_capacity(words * 4);
+            for _ in 0..words * 4 {
+                bytes.push(u.arbitrary::<u8>().unwrap_or(0));
+            }
+            Some(crate::props::c05::tape_from_bytes(&bytes))
+        } else {
+            None
+        };
+        let mut c = general_case(&mut u)?;
+        if c.faults.len() > 2 {
+            c.faults.truncate(2);
+        }
+        c.script = match gflags & 7 {
+            0..=2 => ScriptSel::Matching,
+            3..=4 => ScriptSel::Tag(*b"latn"),
+            5 => ScriptSel::Tag(*b"DFLT"),
+            _ => c.script,
+        };
+        c.text_follows_script = false;
+        c.generated = Some(Generated { gsub, tape, script, retag: gflags & 8 != 0, gdef_from_gpos: gflags & 16 != 0 });
+        return Ok(c);
+    }
+    general_case(&mut u)
+}
+
+/// A C04 case drawn from its own strategy with a ChaCha RNG seeded by the fuzzer's bytes.
+fn c04_case_from_seed(seed: [u8; 32]) -> Option<crate::props::c04::Case> {
+    use proptest::strategy::ValueTree;
+    use proptest::test_runner::{Config, RngAlgorithm, TestRng, TestRunner};
+    let mut runner = TestRunner::new_with_rng(Config::default(), TestRng::from_seed(RngAlgorithm::ChaCha, &seed));
+    crate::props::c04::case_strategy().new_tree(&mut runner).ok().map(|t| t.current())
+}
+
+fn general_case(u: &mut Unstructured) -> arbitrary::Result<Case> {
     let group = u.arbitrary()?;
     let font = u.arbitrary()?;
     let nf = u.int_in_range(0usize..=4)?;
     let mut faults = Vec::new();
     for _ in 0..nf {
-        faults.push(u_fault(&mut u)?);
+        faults.push(u_fault(u)?);
     }
     let script = match u.int_in_range(0u8..=3)? {
         0 | 1 => ScriptSel::Matching,
@@ -1747,9 +2005,10 @@ pub fn case_from_bytes(data: &[u8]) -> arbitrary::Result<Case> {
     };
     let mut text = Vec::new();
     while !u.is_empty() && text.len() < 64 {
-        text.push(u_tok(&mut u)?);
+        text.push(u_tok(u)?);
     }
     Ok(Case {
+        generated: None,
         direct: None,
         group,
         font,
@@ -1912,9 +2171,17 @@ pub fn check_case(case: &Case, rec: &mut Rec) -> CaseResult {
     } else {
         &set.groups[pick(ng - 1, ((case.group as u64 * 0x1_0000_0000u64) / 0xD999_9999u64).min(u32::MAX as u64) as u32)]
     };
-    let entry = match case.direct {
-        Some((_, f)) => &group[(f as usize).min(group.len() - 1)],
-        None => &group[pick(group.len(), case.font)],
+    let gen_entry = case.generated.as_ref().map(build_generated);
+    let entry: &FontEntry = match &gen_entry {
+        Some(Some(e)) => e,
+        Some(None) => {
+            rec.class("generated:unbuildable");
+            return Ok(());
+        }
+        None => match case.direct {
+            Some((_, f)) => &group[(f as usize).min(group.len() - 1)],
+            None => &group[pick(group.len(), case.font)],
+        },
     };
 
     // ---- font bytes
@@ -1945,13 +2212,17 @@ pub fn check_case(case: &Case, rec: &mut Rec) -> CaseResult {
         ScriptSel::Tag(t) => (tagv(&t), if tagv(&t) == matching { "matching" } else { "other" }),
     };
     let alphabet = if let Some(a) = case.alphabet {
-        if entry.synthetic && &a == b"latn" {
+        if entry.generated && &a == b"latn" {
+            &text::PUA
+        } else if entry.synthetic && &a == b"latn" {
             &text::SYNTHETIC
         } else {
             alphabet_for(&a)
         }
     } else if case.text_follows_script && script_class == "other" {
         alphabet_for(&script_tag.to_be_bytes())
+    } else if entry.generated && &entry.script == b"latn" {
+        &text::PUA
     } else if entry.synthetic && &entry.script == b"latn" {
         &text::SYNTHETIC
     } else {
@@ -2028,6 +2299,10 @@ pub fn check_case(case: &Case, rec: &mut Rec) -> CaseResult {
     let direction = if case.rtl { TextDirection::RightToLeft } else { TextDirection::LeftToRight };
 
     rec.hash_bytes(entry.name.as_bytes());
+    if entry.generated {
+        rec.hash_bytes(&entry.bytes);
+        rec.artefact("generated-font", &entry.bytes);
+    }
     rec.hash_bytes(format!("{:?}|{:?}|{}|{:?}|{:?}|{:?}|{:?}", fault_log, chars, script_tag, lang, features, case.tuple, (case.kerning, case.presentation_required, case.rtl, case.vertical)).as_bytes());
     rec.artefact("font", entry.name.as_bytes());
     rec.artefact("faults", fault_log.join("\n").as_bytes());
@@ -2108,7 +2383,13 @@ pub fn check_case(case: &Case, rec: &mut Rec) -> CaseResult {
 
     // ---- tuple
     let mut owned_tuple = None;
-    if let (Some(vals), true) = (&case.tuple, font.is_variable()) {
+    // generated fonts: half of the tuples sit on the condition boundaries of the FeatureVariations
+    let boundary_tuple: Option<Vec<i16>> = match (&case.tuple, entry.tuples.is_empty()) {
+        (Some(_), false) if case.font & 1 == 0 => Some(entry.tuples[pick(entry.tuples.len(), case.font)].clone()),
+        _ => None,
+    };
+    let case_tuple = boundary_tuple.as_ref().or(case.tuple.as_ref());
+    if let (Some(vals), true) = (case_tuple, font.is_variable()) {
         let data: Result<std::borrow::Cow<'_, [u8]>, _> = font.font_table_provider.read_table_data(allsorts::tag::FVAR);
         if let Ok(data) = data {
             if let Ok(fvar) = ReadScope::new(&data[..]).read::<FvarTable<'_>>() {
@@ -2204,6 +2485,10 @@ pub fn check_case(case: &Case, rec: &mut Rec) -> CaseResult {
     rec.set_nontrivial(!chars.is_empty() && mapped >= 1 && entry.has_gsub_or_gpos);
     let kind = if entry.synthetic { "synthetic" } else if intact { "intact" } else { "corrupted" };
     let kind = if entry.synthetic && !intact { "synthetic-corrupted" } else { kind };
+    let kind = if entry.generated { if intact { "generated" } else { "generated-corrupted" } } else { kind };
+    if entry.generated {
+        rec.class(&format!("generated:{}:{}", entry.name.trim_start_matches("generated/"), if intact { "intact" } else { "corrupted" }));
+    }
     rec.class(&format!("font:{}", kind));
     rec.class(&format!("group:{}:{}", entry.group, if intact { "intact" } else { "corrupted" }));
     rec.class(&format!("scripttag:{}", script_class));
@@ -2349,6 +2634,7 @@ fn sweep_case(plan: &[SweepItem], n: u32, mut i: u64) -> Option<Case> {
                 i /= k;
             }
             return Some(Case {
+                generated: None,
                 direct: Some((p.group, p.font)),
                 group: 0,
                 font: 0,
@@ -2441,6 +2727,7 @@ fn field_case(plan: &[FieldItem], i: u64) -> Option<Case> {
     let value = (k / 2) as u8;
     let variant = (k % 2) as usize;
     Some(Case {
+        generated: None,
         direct: Some((item.group, item.font)),
         group: 0,
         font: 0,
@@ -2508,6 +2795,7 @@ fn fraction_case(plan: &[(u16, u16)], i: u64) -> Case {
     let all_bits = take(2) == 1;
     let s: String = format!("{}{}{}", text::LIGATURE_PREFIXES[p], text::FRACTIONS[d], text::FRACTION_SUFFIXES[x]);
     Case {
+        generated: None,
         direct: Some((g, f)),
         group: 0,
         font: 0,
@@ -2546,7 +2834,11 @@ impl Property for C02 {
          boundary value' over the count/offset/format/class/index fields located by an independent deep reader of every \
          GSUB/GPOS lookup subtable; 35 % of the random cases use a string derived from the font (coverage glyphs, ligature \
          components, pair seconds, marks after bases/ligatures, contextual input; spelled through cmap and the substitutions \
-         that produce unencoded glyphs) that reaches a lookup, preferably the faulted one. Deterministic sweeps: all strings \
+         that produce unencoded glyphs) that reaches a lookup, preferably the faulted one. 15 % of the random cases use a \
+         generated-layout font: GSUB/GDEF/FeatureVariations from a C04 program and/or GPOS/kern/GDEF from a C05 tape over a shared \
+         glyph set (U+E000+gid, plus the characters of a complex script when the programs are also registered under arab/deva/ \
+         khmr/mym2/thai/syrc/beng/taml/mlym, optionally with the features renamed to those the shaper applies), intact or with \
+         structural faults, with the generators' witness strings and the deep reader's reaching strings. Deterministic sweeps: all strings \
          of 3 (thorough also 4) key characters per script; prefix x fraction x suffix x script x mask on every font with frac; \
          layout-fields = one small font per script group and every synthetic font x every located field (quick: header-level \
          fields of fixtures, all fields of synthetic fonts) x 6 boundary values x 2 reaching strings. \
